@@ -68,7 +68,7 @@ def make_h(tier):
             ndirs = 2 if shape == "two-dirs" else 1
             for i in range(ndirs):
                 key = ctx.pick(f"dirkey{i}", DIR_KEYS if (i == 0 and shape == "one-dir") else
-                               (DIR_KEYS[:4] if i == 0 else DIR_KEYS[:3]))
+                               (DIR_KEYS[:5] if i == 0 else DIR_KEYS[:3] + ("src/app/",)))     # keys with and without a trailing slash, in both orders
                 if key in dirs:
                     ctx.assume(False)
                 dirs[key] = _pick_rule(ctx, f"dir{i}", FULL if shape == "one-dir" else SMALL)
